@@ -120,6 +120,17 @@ func (e *Engine) indexFuncs(p *packages.Package) {
 	}
 }
 
+func (e *Engine) timeType() types.Type {
+	for _, p := range e.pkgs {
+		for _, imp := range p.Types.Imports() {
+			if imp.Path() == "time" {
+				return imp.Scope().Lookup("Time").Type()
+			}
+		}
+	}
+	return nil
+}
+
 func (e *Engine) pkgOfContract(c *FuncContract) *packages.Package {
 	if p, ok := e.pkgs[c.PkgPath]; ok {
 		return p
